@@ -207,9 +207,11 @@ def rule_delegation(ctx, m, modules, floor=None):
                 if len(members) < 2:
                     continue
                 allg = set().union(*[g for _s, _c, g in members])
+                # a parameter the function itself tests to choose between the siblings (`if ndim == 1`) is fixed by the branch, not dropped on it
+                tested = {x[1] for t_ in walk_stmts(f.body) if t_.k == 'if' for x in walk_expr(t_.cond) if x[0] == 'var'}
                 for s_, call, given in members:
                     n += 1
-                    miss = sorted(allg - given)
+                    miss = sorted(allg - given - tested)
                     ctx.check(not miss, 'R-FWD', mod.path, q, 'sibling delegate %s options' % dotted(call[1]),
                               'the option(s) %s of %s reach %s but not %s: on that branch the callee runs with its default'
                               % (miss, q, sorted(dotted(c_[1]) for _s, c_, g_ in members if set(miss) <= g_), dotted(call[1])), s_.line)
